@@ -7,7 +7,6 @@ from harness import core
 ID = 'C37'
 TITLE = 'Text patches map back to the right source positions'
 PROPS = ['Props/C37']
-DISABLED = True
 RULE = ('random nestings (depth <= 3) of Text / Replacer / Combiner over short texts; patch sets are sorted '
         'non-overlapping cuts of the inner text with deletions, insertions, empty patches and adjacent patches '
         'over-represented, given to Replacer in shuffled order; a separate malformed stream (overlapping, wrong '
@@ -331,7 +330,7 @@ def gen_specs(ctx):
   out = []
   g = Gen(rng, bad=0.0)
   gb = Gen(rng, bad=0.5)
-  for i in range(ctx.n(500, 6000)):
+  for i in range(ctx.n(400, 6000)):
     src = gb if i % 6 == 5 else g
     out.append((src.spec(rng.choice([1, 2, 2, 3, 3])), ctx.tier == 'thorough' and i % 4 == 0))
   # the unit-test shapes and the witness of the known finding
@@ -417,7 +416,7 @@ def correspond(ctx):
       ctx.bump('query ' + ('literal part' if o[0] == 'ok' and o[1] is None else
                            'mapped' if o[0] == 'ok' else o[0]))
     coq.append(case_lit(rec))
-  bad = ctx.run_cases('tb', ['Grist.Model.TextBuilder'], 'check_case %s' % core.boollit(fixed), coq, shard=250)
+  bad = ctx.run_cases('tb', ['Grist.Model.TextBuilder'], 'check_case %s' % core.boollit(fixed), coq, shard=100)
   for i in bad[:5]:
     ctx.broken('correspondence:Model/TextBuilder.v differs from textbuilder.py', 'case %s' % coq[i][:1500])
   monitor_regexp(ctx)
